@@ -327,8 +327,8 @@ class Folder:
             if isinstance(obj, Unknown):
                 return obj
             return Unknown(f"attribute .{e.attr}")
-        if isinstance(e, (ast.DictComp, ast.ListComp, ast.SetComp)):
-            return self._comp(m, e, env)
+        if isinstance(e, (ast.DictComp, ast.ListComp, ast.SetComp, ast.GeneratorExp)):
+            return self._comp(m, e, env)  # a generator expression is evaluated eagerly (the configuration consumes it at once)
         if isinstance(e, ast.Call):
             return self._call(m, e, env)
         if isinstance(e, ast.Lambda):
